@@ -48,6 +48,26 @@ CLAIMS: dict[str, dict[str, str]] = {
         "note": NOTE,
         "technique": "ordering/def-use check, sibling-ladder agreement, component completeness, init-completeness",
     },
+    "C05": {
+        "text": "Static rule checking: operand direction of the six subtraction/diff entry points; value-flow "
+                "reconstruction of `_end - _start` on every non-raising path of Interval.__new__ (72 distinct forms "
+                "today), each side required to be a full copy of its own endpoint, offset-corrected only with its own "
+                "utcoffset(); swap-before-copy order; identity guard; Duration built from total_seconds(); total_*/in_* "
+                "constants and int() truncation. Float precision and the stdlib's aware subtraction are not claimed.",
+        "note": NOTE,
+        "technique": "path-sensitive value-flow reconstruction, operand-direction and unit/truncation rules",
+    },
+    "C06": {
+        "text": "Cross-language sibling checking: borrow chain (radix/target/order) extracted from the Python AST and "
+                "from rustc MIR; the day<0 month branch is executed symbolically on all paths in both languages and "
+                "the sets of (condition, day update, month update) must coincide; sign/slot of the 8 outputs; Rust "
+                "operand descriptors and offset-normalisation regions must be mirror images (symbolic summaries under "
+                "1<->2 renaming); back-end switch names and arity across .pyi/#[pyfunction]/_helpers.py; Interval "
+                "accessors. Shows the two back ends implement the same decomposition with the stated radices; that the "
+                "month-branch is arithmetically right for every date pair is not claimed.",
+        "note": NOTE + " rustc --emit=mir (release overflow setting, opt-level 0) is trusted to reflect the helper.",
+        "technique": "AST vs MIR symbolic path summaries (translation-validation style sibling agreement)",
+    },
 }
 
 NOT_APPLICABLE: dict[str, str] = {}
